@@ -415,11 +415,18 @@ fn sweep(ctx: &Ctx) {
 }
 
 pub fn props() -> Vec<(Box<dyn PropDyn>, u32, u32)> {
-    vec![(
-        Box::new(Prop::new("complete", case_strategy, check).shrink(200)),
-        480,
-        6000,
-    )]
+    vec![
+        (
+            Box::new(Prop::new("complete", case_strategy, check).shrink(200)),
+            480,
+            6000,
+        ),
+        (
+            Box::new(Prop::new("session", super::session::case_strategy, super::session::check).shrink(150)),
+            160,
+            2500,
+        ),
+    ]
 }
 
 pub fn sweeps(ctx: &Ctx) {
